@@ -301,9 +301,34 @@ func runC36(c *Ctx) {
 	// ------------------------------------------------------------ printing
 	if fn := c.mustFn(pk, "Address", "String"); fn != nil {
 		n := 0
+		viaVar := false
 		for _, e := range exitAlts(fn) {
 			n++
 			r := render(e.Results[0])
+			// the prefix may be chosen through a helper variable: split the merged value into its flows
+			if bo, ok := e.Results[0].(*ssa.BinOp); ok && bo.Op == token.ADD {
+				if _, isPhi := bo.X.(*ssa.Phi); isPhi {
+					okAll := true
+					nf := 0
+					for _, fl := range flowsOf(bo.X, nil) {
+						nf++
+						k, isK := fl.Src.(*ssa.Const)
+						pre := ""
+						if isK && k.Value != nil && k.Value.Kind() == constant.String {
+							pre = constant.StringVal(k.Value)
+						}
+						gs := append(append([]Guard{}, e.Guards...), fl.Guards...)
+						_, c1 := holds(gs, wEQ("type byte 1", -1, t(1, `^\$r\[0\]$`)))
+						_, c0 := holds(gs, wNE("type byte not 1", -1, t(1, `^\$r\[0\]$`)))
+						if !((pre == "cx" && c1) || (pre == "hx" && c0)) {
+							okAll = false
+						}
+					}
+					viaVar = true
+					c.check(okAll && nf == 2 && render(bo.Y) == "hex.EncodeToString($r[1:])", "C36.print-canonical", "String = prefix by type byte + lower-case hex of the id", e.pos(), r, "String returns "+r+" with a prefix not determined by the type byte")
+					continue
+				}
+			}
 			_, isC := holds(e.Guards, wEQ("type byte 1", -1, t(1, `^\$r\[0\]$`)))
 			if !isC {
 				// the same test through the accessor, provided the accessor is `a[0] == 1`
@@ -330,7 +355,7 @@ func runC36(c *Ctx) {
 			}
 			c.check(r == want, "C36.print-canonical", "String = prefix by type byte + lower-case hex of the id", e.pos(), r, "String returns "+r+" (expected "+want+")")
 		}
-		c.check(n == 2, "C36.print-canonical", "String has one exit per address type", fn.Pos(), "2", fmt.Sprint(n))
+		c.check(n == 2 || viaVar, "C36.print-canonical", "String has one exit per address type", fn.Pos(), "2", fmt.Sprint(n))
 	}
 	if fn := c.mustFn(pk, "Address", "SetTypeAndID"); fn != nil {
 		n := 0
@@ -567,7 +592,9 @@ func runC36(c *Ctx) {
 	}
 	if fn := c.mustFn(pk, "Address", "Bytes"); fn != nil {
 		for _, e := range exitAlts(fn) {
-			c.check(render(e.Results[0]) == "$r[:]", "C36.bytes-form", "Bytes is the 21-byte array", e.pos(), "a[:]", "Bytes returns "+render(e.Results[0]))
+			r := render(e.Results[0])
+			ab, _ := c.constVal(pk, "AddressBytes")
+			c.check(r == "$r[:]" || r == fmt.Sprintf("$r[0:%d]", ab) || r == fmt.Sprintf("$r[:%d]", ab) || r == "$r[0:]", "C36.bytes-form", "Bytes is the 21-byte array", e.pos(), "a[:]", "Bytes returns "+r)
 		}
 	}
 	if fn := c.mustFn(pk, "Address", "RLPDecodeSelf"); fn != nil {
